@@ -77,6 +77,12 @@ def lit_items(items):
     return vlist(items, lambda kv: vpair(vlist(kv[0]), vZ(tok(kv[1]))))
 
 
+def scipy_equiv(f, axis):
+    """the model-level hop a conversion from a scipy matrix is equivalent to: GCXS.from_scipy_sparse keeps
+    csc as compressed axes (1,) and turns everything else into csr, compressed axes (0,)"""
+    return {"fmt": "gcxs", "axes": [axis]} if f["fmt"] == "gcxs" else f
+
+
 def jcase(c):
     return json.dumps(c, allow_nan=True)
 
@@ -108,7 +114,7 @@ def _apply_hop(cur, h, fv):
     k, axes, via = h["fmt"], h.get("axes"), h.get("via", 0)
     axes = None if axes is None else tuple(axes)
     if isinstance(cur, np.ndarray):
-        zero_fill = bool(fv == 0) and not (np.issubdtype(cur.dtype, np.floating) and np.signbit(fv))
+        zero_fill = bool(fv == 0) and not (np.issubdtype(cur.dtype, np.floating) and np.signbit(fv)) and cur.ndim > 0
         if k == "dense":
             return cur
         if k == "coo":
@@ -128,8 +134,12 @@ def _apply_hop(cur, h, fv):
                 return sparse.asarray(cur, format=k)
             return _cs_cls(k).from_numpy(cur, fill_value=fv)
         if k == "dok":
-            if zero_fill:
-                return sparse.asarray(cur, format="dok") if via == 1 else sparse.DOK.from_numpy(cur)
+            # DOK.from_numpy takes no fill value (and has its own defects, exercised by the construction
+            # cases with direct=True); inside chains a dense array returns to DOK through COO
+            if h.get("direct"):
+                if via == 1:
+                    return sparse.asarray(cur, format="dok")
+                return sparse.DOK(cur) if via == 2 else sparse.DOK.from_numpy(cur)
             return sparse.COO.from_numpy(cur, fill_value=fv).asformat("dok")
         raise AssertionError(k)
     if h.get("scipy"):
@@ -161,7 +171,7 @@ def _apply_hop(cur, h, fv):
             return cur.change_compressed_axes(axes)
         if via == 2 and isinstance(cur, sparse.COO):
             return sparse.GCXS.from_coo(cur, compressed_axes=axes)
-        if via == 3:
+        if via == 3 and isinstance(cur, sparse.COO | sparse.GCXS):
             return sparse.GCXS(cur, compressed_axes=axes)
         return cur.asformat("gcxs", compressed_axes=axes)
     if k in ("csr", "csc"):
@@ -606,6 +616,9 @@ def gen_make_cases(rng, tier, n):
                 f["axes"] = None
             if t == "gcxs_axes":
                 f = {"fmt": "gcxs", "axes": list(rng.choice(subs)) if subs else None, "via": rng.randint(0, 2)}
+            zf = fill == 0 and not (isinstance(fill, float) and math.copysign(1, fill) < 0)
+            if t == "dok" and zf and rng.random() < 0.7:
+                f["direct"] = True       # DOK.from_numpy / asarray(format="dok") / DOK(ndarray)
             cases.append({"k": "dense", "dtype": dtype, "shape": sh, "flat": flat, "fill": fill, "fmt": f})
     # scipy.sparse input
     for i in range(n // 3):
@@ -828,19 +841,22 @@ def campaign(build, tier, seed, report, budget=1):
         elif k == "scipy_coo":
             tag("make/scipy_coo/" + c["fmt"]["fmt"])
             lit = "MkScipyCoo %s %s %s %s %s" % (vlist(c["shape"]), vlist([[a, b] for a, b in zip(c["row"], c["col"], strict=True)], vlist),
-                                                vlist([tok(v) for v in c["data"]]), lit_fmt(c["fmt"]), out)
+                                                vlist([tok(v) for v in c["data"]]), lit_fmt(scipy_equiv(c["fmt"], 0)), out)
         else:
             tag("make/scipy_cs/" + c["fmt"]["fmt"])
             lit = "MkScipyCs %s %s %s %s %s %s %s %s" % (vZ(c["axis"]), vlist(c["shape"]), vlist([tok(v) for v in c["data"]]), vlist(c["indices"]),
-                                                       vlist(c["indptr"]), vbool(c["fmt"]["fmt"] in ("gcxs", "csr", "csc")), lit_fmt(c["fmt"]), out)
+                                                       vlist(c["indptr"]), vbool(c["fmt"]["fmt"] in ("gcxs", "csr", "csc")), lit_fmt(scipy_equiv(c["fmt"], c["axis"])), out)
         mlits.append("(" + lit + ")")
     MK = {1: ("representation", None), 2: ("value", None), 3: ("value", None), 4: ("value", None),
           5: ("value", "zero_dim_from_iter"), 6: ("value", None), 8: ("value", "scipy_noncanonical")}
     for i, code in build.judge("c05_make", IMPORTS, "mk_case", "judge_make", mlits, chunk=250):
         c, r = mc[i], mres[i]
         kind, clause = MK.get(code, ("value", None))
-        if code == 2 and c["k"] == "dense" and c["fmt"]["fmt"] == "dok" and any(isinstance(v, float) and v == 0 and math.copysign(1, v) < 0 for v in c["flat"]):
-            clause = "dok_from_numpy_negative_zero"
+        if c["k"] == "dense" and c["fmt"].get("direct"):
+            if code == 2 and any(isinstance(v, float) and v == 0 and math.copysign(1, v) < 0 for v in c["flat"]):
+                clause = "dok_from_numpy_negative_zero"
+            if code == 4 and c["shape"] == []:
+                clause = "dok_from_numpy_0d"
         what = {1: "representation differs from the model", 2: "an element, the shape or the fill differs from the Spec",
                 3: "result is not in canonical form", 4: "exception on a valid input", 5: "exception on a valid 0-d input (COO.from_iter rejects the key ())",
                 6: "malformed input accepted", 8: "non-canonical scipy matrix passed through unchanged: not canonical / elements differ"}.get(code)
@@ -891,6 +907,9 @@ def campaign(build, tier, seed, report, budget=1):
         i = cidx[j]
         hop, code = divmod(v, 10)
         kind, clause, what = CK.get(code, ("value", None, "?"))
+        fl = cc[i]["spec"]["fill"]
+        if code == 6 and cc[i]["hops"][hop - 1].get("scipy") and isinstance(fl, float) and fl == 0 and math.copysign(1, fl) < 0:
+            clause, what = "to_scipy_negative_zero_fill", "to_scipy_sparse accepts the fill value -0.0; unstored elements come back as +0.0"
         viol.append(dict(property="C05", op="chain", kind=kind, clause=clause, code=code, hop=hop, what=what, case=cc[i], impl=cres[i],
                          replay_py=replay_line("impl_chain", cc[i])))
 
